@@ -55,6 +55,13 @@ impl de::Error for E {
     }
 }
 
+thread_local! {
+    /// armed by `ser_case`: run ONCE by the recording serializer at its first callback (user code running inside
+    /// `Arc::serialize`: it takes — and keeps — another handle to the value being serialised)
+    static SER_HOOK: RefCell<Option<Box<dyn FnMut()>>> = RefCell::new(None);
+}
+fn run_ser_hook() { let h = SER_HOOK.with(|c| c.borrow_mut().take()); if let Some(mut f) = h { f(); } }
+
 struct Ctl {
     log: RefCell<Vec<String>>,
     n: Cell<usize>,
@@ -72,6 +79,7 @@ impl Ctl {
     }
     /// one callback: logged, counted, failing if it is the `fail_at`-th
     fn call(&self, c: impl FnOnce() -> String) -> Result<(), E> {
+        run_ser_hook();
         unrecorded(|| {
             let n = self.n.get() + 1;
             self.n.set(n);
@@ -556,7 +564,7 @@ fn ser_show<T: Serialize + ?Sized>(v: &T, k: usize, t_nhr: Option<&str>) -> Stri
     format!("{}{{{}}}", shown, extra.join(","))
 }
 
-fn ser_case<T: Serialize + Clone>(v: &T, k: usize) -> String {
+fn ser_case<T: Serialize + Clone + 'static>(v: &T, k: usize) -> String {
     let t = ser_show(v, k, None);
     let t_nhr = ser_one(v, k, false).0;
     // the handle must come out of a serialisation (successful or failed at the k-th callback) as it went in: still the
@@ -569,12 +577,26 @@ fn ser_case<T: Serialize + Clone>(v: &T, k: usize) -> String {
     let mut ar = ser_show(&a, k, Some(&t_nhr));
     let cnt_after = Arc::count(&a);
     let uniq_after = a.is_unique();
+    // the same serialisation while the SERIALIZER takes and keeps a clone of the very handle at its first callback (a serializer
+    // that retains its input; or another thread cloning meanwhile): the calls, the result and the error are the same — the count
+    // is allowed to move during a serialisation
+    let reentrant_same = {
+        let ap: *const Arc<T> = &a;
+        let kept: std::rc::Rc<RefCell<Vec<Arc<T>>>> = std::rc::Rc::new(RefCell::new(Vec::new()));
+        let kept2 = kept.clone();
+        SER_HOOK.with(|c| *c.borrow_mut() = Some(Box::new(move || unsafe { kept2.borrow_mut().push((*ap).clone()) })));
+        let r = std::panic::catch_unwind(std::panic::AssertUnwindSafe(|| ser_one(&a, k, true).0));
+        SER_HOOK.with(|c| *c.borrow_mut() = None);
+        let same = match r { Ok(shown) => shown == ser_one(&a, k, true).0, Err(_) => false };
+        kept.borrow_mut().clear();
+        same
+    };
     set_recording(true);
     drop(a);
     set_recording(false);
     let _ = take_events();
     let freed = blk.map(|i| !harness::rec(i).live).unwrap_or(false);
-    ar = format!("{},cnt_after={},unique_after={},freed={}}}", &ar[..ar.len() - 1], cnt_after, uniq_after, freed);
+    ar = format!("{},cnt_after={},unique_after={},freed={},reentrant_same={}}}", &ar[..ar.len() - 1], cnt_after, uniq_after, freed, reentrant_same);
     let u = UniqueArc::new(v.clone());
     let ur = ser_show(&u, k, Some(&t_nhr));
     format!("T={} Arc={} Unique={}", t, ar, ur)
